@@ -43,10 +43,12 @@ THEOREMS = {"Proofs.Props.C02": ["MsPack.Cab.C02_block_fits_buffer", "MsPack.Cab
             "Proofs.Props.C02ChmExtract": ["MsPack.ChmLift.C02_chm_lzx_no_oob", "MsPack.ChmLift.C02_chm_lzx_faults_mild", "MsPack.ChmLift.C02_chm_extract_faults_mild",
                                            "MsPack.ChmLift.C02_chm_extract_no_ub_but_oob", "MsPack.ChmLift.C02_chm_extract_sec0_no_fault", "MsPack.ChmLift.C02_chm_session_no_ub_but_oob",
                                            "MsPack.ChmLift.C02_chm_open_find_no_fault", "MsPack.CabLift.LzxMild.decompress_mild"],
+            "Proofs.Props.C02OabExtract": ["MsPack.OabLift.sysRead_no_fault", "MsPack.OabLift.C02_oab_no_ub_but_oob", "MsPack.OabLift.C02_oab_faults_mild"],
             "Proofs.Props.Tables": ["MsPack.TableObligations.cab_block_fits", "MsPack.TableObligations.lzx_dims",
                                     "MsPack.TableObligations.qtm_dims", "MsPack.TableObligations.zip_dims"]}
 ASSUMPTIONS = ["END TO END for CAB (C02CabExtract): for every set of files, every parameter setting (salvage included), every list of members and every list of extract() calls threaded through the decoder cache from a fresh decompressor, the model's cabd_extract never ends in an out-of-bounds, null-dereference, division or shift-width outcome - no hypothesis left (C02_cab_session_fresh_no_ub); the position bound 2^31 of the LZX theorem is discharged by memberCheck's cap (offset + length <= CAB_LENGTHMAX), LenStable by the feeder invariant; the only fault outcomes left are the model's fuel (`hang`, C04's subject) and LZX's unbuilt-table outcome (`uninit`, C11's subject). ",
                "CHM end to end (C02ChmExtract): the LZX model has no null-dereference, division or shift-width site at all (decompress_mild: any state, any fault-free source), CHM's file-backed source never faults and never announces a length (LenStable holds outright), so for every file, instance and session of extract() calls on opened headers: never nullDeref/divZero/shiftWidth, section-0 members no fault at all, open and fast_find no fault at all; an out-of-bounds outcome of a section-1 extract is excluded per decoder call under position < 2^31 (C02_chm_lzx_no_oob) but not yet threaded through chmd_extract (CHM offsets are 64-bit: needs a named premise on the member and a DState/decoder offset invariant). ",
+               "OAB (C02OabExtract): for every input, base, buffer size and fill, oabd decompress / decompress_incremental never end in a null-dereference, division or shift-width outcome (container walk + the LZX fact above; no hypothesis); excluding oob there needs blk_dsize < 2^31, which 32-bit header fields do not imply: left to the sanitizer runs. ",
                "theorems: on the models the out-of-bounds (and null-dereference, shift-width, division, uninitialised-table) outcomes are unreachable for every input - CAB container buffers, the LZSS decoder, the KWAJ header reader (13-byte name buffer), the KWAJ LZH decoder and the MSZIP decoder (window, input buffer, bit-length table; CAB and KWAJ entry points, any sequence of calls); "
                "a fault can only be one the source's own read() raised (none for the file-backed sources) or the model's fuel running out; the LZX decoder (all its window, input-buffer, length-array, position-table and E8-buffer accesses, any sequence of calls, CAB/CHM/DELTA) under two stated side conditions: the stream length announced to the decoder does not change once set (`LenStable`; lzxd_set_output_length called with a second, different value after a short last frame IS an out-of-bounds write on the model - not reachable through the public API, where cabd sets it once) and the stream position stays below 2^31 (beyond it `match_offset - window_posn` wraps as an int on the model; CAB caps offsets there, a CHM stream beyond 2 GiB is outside what this sandbox can replay); "
                "the Quantum decoder (window, input buffer, the nine adaptive models incl. the division by the model's total frequency: the invariant keeps it non-zero), any sequence of calls; "
